@@ -208,9 +208,8 @@ example : validDraws 4 [1, 0, 1] := by unfold validDraws; decide
 The reference fingerprint also hashes the *set* of frame types of the Initial packets; per-dial randomisation
 reaches it only through the number of PING frames a `QUICRandomFrames` builder draws. -/
 
-/-- full statement: for every built-in spec with a random frame builder the frame-type set is the same on
-every dial. It is FALSE on the tree this was written against (Chrome_115: MinPING 0, MaxPING 10; listed
-finding `frameset_without_ping`), so only the characterisation below is proved. -/
+/-- for every built-in spec with a random frame builder the frame-type set is the same on every dial
+(proved below from the regenerated bounds; it was false until /repo 5ba7891 raised Chrome_115's MinPING) -/
 def frame_kinds_stable_full : Prop := ∀ b ∈ randomFramePing, pingStable b.2.1 b.2.2
 
 /-- the PING membership of the frame-type set is draw-independent exactly when the bounds exclude the zero
@@ -226,6 +225,11 @@ theorem frame_kinds_stable_full_iff :
   constructor
   · intro h b hb; exact (pingStable_iff _ _).mp (h b hb)
   · intro h b hb; exact (pingStable_iff _ _).mpr (h b hb)
+
+/-- FULL STRENGTH: with the bounds the Go source has now, no built-in spec's frame-type set depends on the
+per-dial draws (a bound that again allows both zero and some PING frames makes this proof fail) -/
+theorem frame_kinds_stable : frame_kinds_stable_full :=
+  frame_kinds_stable_full_iff.mpr (by decide)
 
 /-- the negation witness, with Chrome_115's bounds as they were found: zero and one PING are both drawn -/
 theorem frame_kinds_unstable_witness : ¬ pingStable 0 10 := by
